@@ -738,6 +738,8 @@ func init() {
 	}
 }
 
+var c18ExchangeCases int
+
 // c18Misc checks generic.Map, generic.Exchange and generic.Resource against their ID-based equivalents.
 func c18Misc() string {
 	ar := &gen18.Arities[1][2] // GR, G1
@@ -943,6 +945,135 @@ func c18Misc() string {
 			}
 			if ra != rb || a.snap() != b.snap() {
 				return fmt.Sprintf("%s: result %q / world differs from the ID-based equivalent (%q)", where, ra, rb)
+			}
+		}
+	}
+	// systematic: configuration x action x entity x target (given / omitted / zero), against the documented core call
+	tGY := generic.T[gen18.GY]()
+	type cfgX struct {
+		adds, removes []generic.Comp
+		rel           generic.Comp
+	}
+	idsOf := func(g *g18, cs []generic.Comp) []ecs.ID {
+		var out []ecs.ID
+		for _, c := range cs {
+			switch c {
+			case tG1:
+				out = append(out, g.all[1])
+			case tGX:
+				out = append(out, g.gx)
+			case tGY:
+				out = append(out, g.gy)
+			case tGR:
+				out = append(out, g.gr)
+			}
+		}
+		return out
+	}
+	var cfgs []cfgX
+	for _, ad := range [][]generic.Comp{nil, {tG1}, {tGY}, {tGR}} {
+		for _, rm := range [][]generic.Comp{nil, {tGX}, {tGR}} {
+			for _, rel := range []generic.Comp{nil, tGR} {
+				cfgs = append(cfgs, cfgX{ad, rm, rel})
+			}
+		}
+	}
+	for _, cf := range cfgs {
+		for action := 0; action < 5; action++ {
+			for ent := 0; ent < 3; ent++ {
+				for tgt := -1; tgt < 3; tgt++ { // -1 omitted, 0 = e0, 1 = e1, 2 = zero entity
+					if action == 4 && ent > 0 {
+						continue
+					}
+					a, b := newG18(ar), newG18(ar)
+					a.seed(ar, 1)
+					b.seed(ar, 1)
+					pick := func(g *g18) (ecs.Entity, []ecs.Entity) {
+						e := []ecs.Entity{g.ents[1], g.ents[4], g.ents[3]}[ent]
+						switch tgt {
+						case -1:
+							return e, nil
+						case 2:
+							return e, []ecs.Entity{{}}
+						}
+						return e, []ecs.Entity{g.ents[tgt]}
+					}
+					var ra, rb string
+					pa := catchP(func() {
+						ex := generic.NewExchange(&a.w)
+						if cf.adds != nil {
+							ex.Adds(cf.adds...)
+						}
+						if cf.removes != nil {
+							ex.Removes(cf.removes...)
+						}
+						if cf.rel != nil {
+							ex.WithRelation(cf.rel)
+						}
+						e, t := pick(a)
+						switch action {
+						case 0:
+							ex.Add(e, t...)
+						case 1:
+							ex.Remove(e, t...)
+						case 2:
+							ex.Exchange(e, t...)
+						case 3:
+							ra = fmt.Sprint(a.w.Alive(ex.NewEntity(t...)))
+						default:
+							ra = fmt.Sprint(ex.ExchangeBatch(ecs.All(a.gx), t...))
+						}
+					})
+					pb := catchP(func() {
+						g := b
+						e, t := pick(g)
+						add, rem := idsOf(g, cf.adds), idsOf(g, cf.removes)
+						if t != nil && cf.rel == nil {
+							panic("can't set target entity: Exchange has no relation")
+						}
+						switch action {
+						case 0:
+							if t != nil {
+								g.w.Relations().Exchange(e, add, nil, g.gr, t[0])
+							} else {
+								g.w.Add(e, add...)
+							}
+						case 1:
+							if t != nil {
+								g.w.Relations().Exchange(e, nil, rem, g.gr, t[0])
+							} else {
+								g.w.Remove(e, rem...)
+							}
+						case 2:
+							if t != nil {
+								g.w.Relations().Exchange(e, add, rem, g.gr, t[0])
+							} else {
+								g.w.Exchange(e, add, rem)
+							}
+						case 3:
+							if t != nil {
+								rb = fmt.Sprint(g.w.Alive(ecs.NewBuilder(&g.w, add...).WithRelation(g.gr).New(t[0])))
+							} else {
+								rb = fmt.Sprint(g.w.Alive(g.w.NewEntity(add...)))
+							}
+						default:
+							if t != nil {
+								rb = fmt.Sprint(g.w.Relations().ExchangeBatch(ecs.All(g.gx), add, rem, g.gr, t[0]))
+							} else {
+								rb = fmt.Sprint(g.w.Batch().Exchange(ecs.All(g.gx), add, rem))
+							}
+						}
+					})
+					where := fmt.Sprintf("generic.Exchange (adds %v, removes %v, relation %v) action %s, entity #%d, target %d (-1 = omitted, 2 = zero)",
+						cf.adds, cf.removes, cf.rel, [...]string{"Add", "Remove", "Exchange", "NewEntity", "ExchangeBatch(All(GX))"}[action], ent, tgt)
+					if (pa == nil) != (pb == nil) {
+						return fmt.Sprintf("%s: panic %v vs ID-based equivalent: panic %v", where, pa, pb)
+					}
+					if ra != rb || a.snap() != b.snap() {
+						return fmt.Sprintf("%s: result %q / world differs from the ID-based equivalent (%q):\n   generic:  %s\n   ID-based: %s", where, ra, rb, a.snap(), b.snap())
+					}
+					c18ExchangeCases++
+				}
 			}
 		}
 	}
